@@ -871,4 +871,240 @@ Lemma location_operand_top l a s : top_hdr l ->
   location_operand l (VPtr a) s = (dom slot <- get_binding a; ret (VGSlot slot)) s.
 Proof. intros [E A]. unfold location_operand, binding_location, envmap_slot. rewrite E, A. reflexivity. Qed.
 
-End Sem.
+(* ------------------------------------------------------------ execution of the emitted patterns *)
+Lemma len2 {A} (a b : A) : len [a; b] = 2.
+Proof. reflexivity. Qed.
+Lemma len3 {A} (a b c : A) : len [a; b; c] = 3.
+Proof. reflexivity. Qed.
+Lemma len1 {A} (a : A) : len [a] = 1.
+Proof. reflexivity. Qed.
+
+Lemma vrep_void h s : vrep VVoid (RDatum CVoid) h s.
+Proof. split; [apply reads_imm; intros; reflexivity|intros p; discriminate]. Qed.
+
+(* MOV_IMMEDIATE v %acc with an operand that represents r *)
+Lemma exec_movimm s0 p v r rho : vrep v r (hp s0) (st s0) ->
+  exec_ok s0 p [VOp OMovImmediate; v; VAcc] rho r rho.
+Proof.
+  intros V m lp bc X MI Hc Hs Hip G.
+  pose proof (vrep_ext _ _ _ _ _ _ V (cext_ext _ _ X)) as V'.
+  pose proof (step_movimm ob m lp p bc v Hc Hip Hs (vrep_not_op _ _ _ _ V')) as E.
+  exists 1%nat, (with_acc (with_ip m (lp, p + 3)) v).
+  assert (SM : same_mem m (with_acc (with_ip m (lp, p + 3)) v)) by (repeat split).
+  split; [apply steps_one; exact E|]. split; [apply same_mem_frame; exact SM|].
+  split; [eapply same_mem_minv; eassumption|]. split; [reflexivity|]. split; [exact V'|].
+  eapply genv_rel_frame; [apply same_mem_frame; exact SM|reflexivity|exact G].
+Qed.
+
+(* MOV (global slot) %acc *)
+Lemma exec_load_global s0 p a k x rho r :
+  allocated (hp s0) a -> cell_at (hp s0) a = VSym x -> assoc_find (g_bind s0) a = Some k ->
+  rho x = Some r -> r <> RDatum CUndef ->
+  exec_ok s0 p [VOp OMov; VGSlot k; VAcc] rho r rho.
+Proof.
+  intros A C B Hx Hr m lp bc X MI Hc Hs Hip G.
+  destruct (G x r Hx) as (a' & k' & v & A' & C' & B' & L & V).
+  destruct (ce_heap _ _ X a A) as [Am Cm]. rewrite C in Cm.
+  assert (a = a') as <- by (apply (same_name_iff_same_cell (hp m) a a' x x (mi_heap _ MI) Am A' Cm C'); reflexivity).
+  pose proof (ce_bind _ _ X a k B) as Bm. assert (k' = k) as -> by congruence.
+  pose proof (step_load_global ob m lp p bc k v Hc Hip Hs L (vrep_not_undef _ _ _ _ V Hr)) as E.
+  exists 1%nat, (with_acc (with_ip m (lp, p + 3)) v).
+  assert (SM : same_mem m (with_acc (with_ip m (lp, p + 3)) v)) by (repeat split).
+  split; [apply steps_one; exact E|]. split; [apply same_mem_frame; exact SM|].
+  split; [eapply same_mem_minv; eassumption|]. split; [reflexivity|]. split; [exact V|].
+  eapply genv_rel_frame; [apply same_mem_frame; exact SM|reflexivity|exact G].
+Qed.
+
+(* MOV %acc (global slot); MOV_IMMEDIATE #<void> %acc *)
+Lemma exec_store_tail m1 lp bc i a k x rho r :
+  minv m1 -> code_in m1 lp bc ->
+  seg bc i [VOp OMov; VAcc; VGSlot k; VOp OMovImmediate; VVoid; VAcc] -> ip m1 = (lp, i) ->
+  allocated (hp m1) a -> cell_at (hp m1) a = VSym x -> assoc_find (g_bind m1) a = Some k ->
+  vrep (acc m1) r (hp m1) (st m1) -> genv_rel rho m1 ->
+  exists m3, steps 2 m1 = Some m3 /\ frame m1 m3 /\ minv m3 /\ ip m3 = (lp, i + 6) /\
+    acc m3 = VVoid /\ genv_rel (upd rho x r) m3.
+Proof.
+  intros MI Hc Hs Hip A C B V G.
+  change [VOp OMov; VAcc; VGSlot k; VOp OMovImmediate; VVoid; VAcc]
+    with ([VOp OMov; VAcc; VGSlot k] ++ [VOp OMovImmediate; VVoid; VAcc]) in Hs.
+  apply seg_app in Hs as [Hs1 Hs2]. rewrite len3 in Hs2.
+  assert (Hk : k < len (g_slots m1)) by (apply (proj1 (mi_glob _ MI) a); exact B).
+  pose proof (step_store_global ob m1 lp i bc k Hc Hip Hs1 Hk) as E1.
+  set (m2 := with_globals (with_ip m1 (lp, i + 3)) (g_bind m1) (list_set (g_slots m1) k (acc m1))) in *.
+  assert (Hc2 : code_in m2 lp bc) by (eapply code_in_regs; [| |exact Hc]; reflexivity).
+  pose proof (step_movimm ob m2 lp (i + 3) bc VVoid Hc2 eq_refl Hs2 ltac:(discriminate)) as E2.
+  set (m3 := with_acc (with_ip m2 (lp, i + 3 + 3)) VVoid) in *.
+  exists m3. split; [eapply (steps_trans ob 1 1); apply steps_one; eassumption|].
+  assert (F : frame m1 m3).
+  { constructor; try reflexivity; auto.
+    apply cext_same; try reflexivity. cbn [g_slots m3 m2 with_acc with_ip with_globals].
+    rewrite list_set_len. lia. }
+  split; [exact F|]. split.
+  { destruct MI as [HI [G1 G2] SP]. constructor; [exact HI| |exact SP].
+    split; cbn [g_bind g_slots m3 m2 with_acc with_ip with_globals]; [|exact G2].
+    intros a0 k0 H0. rewrite list_set_len. eapply G1. exact H0. }
+  split; [cbn [ip m3 with_acc with_ip]; f_equal; lia|]. split; [reflexivity|].
+  intros y ry Hy. unfold upd in Hy. destruct (text_eqb y x) eqn:Eyx.
+  - apply text_eqb_eq in Eyx. subst y. injection Hy as <-.
+    exists a, k, (acc m1). split; [exact A|]. split; [exact C|]. split; [exact B|].
+    split; [|exact V]. cbn [g_slots m3 m2 with_acc with_ip with_globals]. apply list_get_set_same. exact Hk.
+  - destruct (G y ry Hy) as (ay & ky & vy & Ay & Cy & By & Ly & Vy).
+    exists ay, ky, vy. split; [exact Ay|]. split; [exact Cy|]. split; [exact By|]. split; [|exact Vy].
+    cbn [g_slots m3 m2 with_acc with_ip with_globals]. rewrite list_get_set_other; [exact Ly|].
+    intros <-. assert (a = ay) as <- by (eapply (proj2 (mi_glob _ MI)); eassumption).
+    rewrite C in Cy. injection Cy as <-. rewrite text_eqb_refl in Eyx. discriminate.
+Qed.
+
+(* ------------------------------------------------------------ constants, quote *)
+Lemma compile_const_eq f l tail c : self_eval c = true ->
+  compile_expression (S f) l tail c =
+  (dom v <- maybe_put_cell_m c; ret (emit (emit (emit_op l OMovImmediate) v) VAcc)).
+Proof. destruct c; try discriminate; reflexivity. Qed.
+
+Lemma fwd_emit3 l o a b : fwd (emit (emit (emit_op l o) a) b) = fwd l ++ [VOp o; a; b].
+Proof. rewrite !fwd_emit, fwd_emit_op, <- !app_assoc. reflexivity. Qed.
+
+Lemma cok_datum (e : expr) d :
+  (forall f l tail, compile_expression (S f) l tail (cell_of e) =
+     (dom v <- maybe_put_cell_m d; ret (emit (emit (emit_op l OMovImmediate) v) VAcc))) ->
+  heap_datum d -> (forall rho r rho', ref_eval rho e r rho' -> r = RDatum d /\ rho' = rho) ->
+  compile_ok e.
+Proof.
+  intros Heq Hd Hinv f l tail s Hf Ht MI. destruct f as [|f]; [lia|]. rewrite Heq.
+  destruct (maybe_put_cell_m_ok d s Hd MI) as (v & s' & E & MI' & X & V).
+  exists (emit (emit (emit_op l OMovImmediate) v) VAcc), s', [VOp OMovImmediate; v; VAcc].
+  unfold bindM. rewrite E. split; [reflexivity|]. split; [apply fwd_emit3|]. split; [repeat split|].
+  split; [exact MI'|]. split; [exact X|].
+  intros rho r rho' HR. destruct (Hinv _ _ _ HR) as [-> ->]. apply exec_movimm. exact V.
+Qed.
+
+Lemma cok_const c : wf_expr (EConst c) -> compile_ok (EConst c).
+Proof.
+  intros [Hs Hd]. apply (cok_datum (EConst c) c); [intros; apply compile_const_eq; exact Hs|exact Hd|].
+  intros rho r rho' HR. inversion HR; subst. auto.
+Qed.
+
+Lemma cok_quote d : wf_expr (EQuote d) -> compile_ok (EQuote d).
+Proof.
+  intros Hd. apply (cok_datum (EQuote d) d); [intros; apply compile_quote_form|exact Hd|].
+  intros rho r rho' HR. inversion HR; subst. auto.
+Qed.
+
+(* ------------------------------------------------------------ global variable *)
+Lemma compile_var_eq f l tail x s : is_primitive_symbol (CSym x) = false ->
+  compile_expression (S f) l tail (CSym x) s =
+  (dom sym_ref <- put_cell_m (CSym x);
+   dom operand <- location_operand l sym_ref;
+   ret (emit (emit (emit_op l OMov) operand) VAcc)) s.
+Proof. intros H. cbn [compile_expression]. rewrite H. reflexivity. Qed.
+
+Lemma cok_var x : wf_expr (EVar x) -> compile_ok (EVar x).
+Proof.
+  intros Hx f l tail s Hf Ht MI. destruct f as [|f]; [lia|]. cbn [cell_of]. rewrite (compile_var_eq _ _ _ _ _ Hx).
+  destruct (put_sym_m_ok x s MI) as (a & s1 & E1 & MI1 & X1 & A & C & Eb & Eg).
+  destruct (get_binding_ok a s1 MI1) as (k & s2 & E2 & MI2 & X2 & Eh & Es & B).
+  exists (emit (emit (emit_op l OMov) (VGSlot k)) VAcc), s2, [VOp OMov; VGSlot k; VAcc].
+  unfold bindM at 1. rewrite E1. unfold bindM at 1. rewrite (location_operand_top l a s1 Ht).
+  unfold bindM at 1. rewrite E2. split; [reflexivity|]. split; [apply fwd_emit3|]. split; [repeat split|].
+  split; [exact MI2|]. split; [eapply cext_trans; eassumption|].
+  intros rho r rho' HR. inversion HR; subst.
+  apply (exec_load_global s2 _ a k x); auto; rewrite Eh; assumption.
+Qed.
+
+(* ------------------------------------------------------------ define / set! *)
+Lemma compile_define_eq f l tail x e s : is_primitive_symbol (CSym x) = false ->
+  compile_expression (S f) l tail (CPair DEFINE_ (CPair (CSym x) (CPair e CNil))) s =
+  (dom l1 <- compile_expression f l false e;
+   dom sym_ref <- put_cell_m (CSym x);
+   dom operand <- location_operand (emit (emit_op l1 OMov) VAcc) sym_ref;
+   ret (emit (emit (emit_op (emit (emit (emit_op l1 OMov) VAcc) operand) OMovImmediate) VVoid) VAcc)) s.
+Proof.
+  intros H. cbn [compile_expression]. unfold DEFINE_.
+  change (sym_eq (CSym (S_ "define")) "define") with true. cbv iota.
+  cbn [is_nil]. cbv iota. unfold bindM at 1. cbn [lift cdr_e]. cbn [is_nil]. cbv iota.
+  unfold bindM at 1. cbn [lift car_e].
+  unfold bindM at 1. unfold bindM at 1. cbn [lift cdr_e].  cbn [is_nil negb]. cbv iota.
+  unfold bindM at 1. cbn [lift car_e].
+  unfold bindM at 1. unfold bindM at 3.
+  destruct (compile_expression f l false e s) as [l1 s1| | |]; try reflexivity.
+  unfold ret at 1. rewrite H. reflexivity.
+Qed.
+
+Lemma compile_set_eq f l tail x e s : is_primitive_symbol (CSym x) = false ->
+  compile_expression (S f) l tail (CPair SET_ (CPair (CSym x) (CPair e CNil))) s =
+  (dom l1 <- compile_expression f l false e;
+   dom sym_ref <- put_cell_m (CSym x);
+   dom operand <- location_operand (emit (emit_op l1 OMov) VAcc) sym_ref;
+   ret (emit (emit (emit_op (emit (emit (emit_op l1 OMov) VAcc) operand) OMovImmediate) VVoid) VAcc)) s.
+Proof.
+  intros H. cbn [compile_expression]. unfold SET_.
+  change (sym_eq (CSym (S_ "set!")) "define") with false.
+  change (sym_eq (CSym (S_ "set!")) "define-syntax") with false.
+  change (sym_eq (CSym (S_ "set!")) "lambda" || sym_is (CSym (S_ "set!")) [955]) with false.
+  change (sym_eq (CSym (S_ "set!")) "quasiquote") with false.
+  change (sym_eq (CSym (S_ "set!")) "quote") with false.
+  change (sym_eq (CSym (S_ "set!")) "if") with false.
+  change (sym_eq (CSym (S_ "set!")) "set!") with true. cbv iota.
+  cbn [cell_iter is_symbol negb orb]. rewrite H. reflexivity.
+Qed.
+
+Lemma fwd_store l1 k :
+  fwd (emit (emit (emit_op (emit (emit (emit_op l1 OMov) VAcc) (VGSlot k)) OMovImmediate) VVoid) VAcc)
+  = fwd l1 ++ [VOp OMov; VAcc; VGSlot k; VOp OMovImmediate; VVoid; VAcc].
+Proof. rewrite !fwd_emit3, <- app_assoc. reflexivity. Qed.
+
+(* shared by define and set!: value code, then the store *)
+Lemma cok_store (e0 : expr) x e :
+  (forall f l tail s, compile_expression (S f) l tail (cell_of e0) s =
+    (dom l1 <- compile_expression f l false (cell_of e);
+     dom sym_ref <- put_cell_m (CSym x);
+     dom operand <- location_operand (emit (emit_op l1 OMov) VAcc) sym_ref;
+     ret (emit (emit (emit_op (emit (emit (emit_op l1 OMov) VAcc) operand) OMovImmediate) VVoid) VAcc)) s) ->
+  (cell_size (cell_of e) < cell_size (cell_of e0))%nat ->
+  (forall rho r rho', ref_eval rho e0 r rho' ->
+     exists r1 rho1, ref_eval rho e r1 rho1 /\ r = RDatum CVoid /\ rho' = upd rho1 x r1) ->
+  compile_ok e -> compile_ok e0.
+Proof.
+  intros Heq Hsz Hinv IH f l tail s Hf Ht MI. destruct f as [|f]; [lia|]. rewrite Heq.
+  destruct (IH f l false s ltac:(lia) Ht MI) as (l1 & s1 & code & E1 & F1 & S1 & MI1 & X1 & EX1).
+  destruct (put_sym_m_ok x s1 MI1) as (a & s2 & E2 & MI2 & X2 & A & C & Eb & Eg).
+  destruct (get_binding_ok a s2 MI2) as (k & s3 & E3 & MI3 & X3 & Eh & Es & B).
+  assert (Ht1 : top_hdr (emit (emit_op l1 OMov) VAcc))
+    by (eapply top_hdr_same; [|exact Ht]; eapply same_hdr_trans; [exact S1|repeat split]).
+  eexists; exists s3, (code ++ [VOp OMov; VAcc; VGSlot k; VOp OMovImmediate; VVoid; VAcc]).
+  unfold bindM at 1. rewrite E1. unfold bindM at 1. rewrite E2. unfold bindM at 1.
+  rewrite (location_operand_top _ a s2 Ht1). unfold bindM at 1. rewrite E3.
+  split; [reflexivity|]. split; [rewrite fwd_store, F1, <- app_assoc; reflexivity|].
+  split; [eapply same_hdr_trans; [exact S1|repeat split]|]. split; [exact MI3|].
+  assert (X13 : cext s1 s3) by (eapply cext_trans; eassumption).
+  split; [eapply cext_trans; eassumption|].
+  intros rho r rho' HR. destruct (Hinv _ _ _ HR) as (r1 & rho1 & HR1 & -> & ->).
+  intros m lp bc X MIm Hc Hs Hip G. apply seg_app in Hs as [Hs1 Hs2].
+  destruct (EX1 _ _ _ HR1 m lp bc (cext_trans _ _ _ X13 X) MIm Hc Hs1 Hip G)
+    as (n1 & m1 & St1 & Fr1 & MIm1 & Hip1 & V1 & G1).
+  assert (X3m1 : cext s3 m1) by (eapply cext_trans; [exact X|apply Fr1]).
+  destruct (ce_heap _ _ X3m1 a) as [A1 C1]; [rewrite Eh; exact A|]. rewrite Eh, C in C1.
+  pose proof (ce_bind _ _ X3m1 a k B) as B1.
+  destruct (exec_store_tail m1 lp bc _ a k x rho1 r1 MIm1 (code_in_ext _ _ _ _ Hc (fr_ext _ _ Fr1)) Hs2 Hip1 A1 C1 B1 V1 G1)
+    as (m3 & St3 & Fr3 & MIm3 & Hip3 & Hacc & G3).
+  exists (n1 + 2)%nat, m3. split; [eapply steps_trans; eassumption|].
+  split; [eapply frame_trans; eassumption|]. split; [exact MIm3|].
+  split; [rewrite Hip3, len_app; f_equal; change (len [VOp OMov; VAcc; VGSlot k; VOp OMovImmediate; VVoid; VAcc]) with 6; lia|].
+  split; [rewrite Hacc; apply vrep_void|exact G3].
+Qed.
+
+Lemma cok_define x e : wf_expr (EDefine x e) -> compile_ok e -> compile_ok (EDefine x e).
+Proof.
+  intros [Hx _]. apply (cok_store (EDefine x e) x e).
+  - intros. apply compile_define_eq. exact Hx.
+  - cbn [cell_of cell_size]. lia.
+  - intros rho r rho' HR. inversion HR; subst. eauto.
+Qed.
+
+Lemma cok_set x e : wf_expr (ESet x e) -> compile_ok e -> compile_ok (ESet x e).
+Proof.
+  intros [Hx _]. apply (cok_store (ESet x e) x e).
+  - intros. apply compile_set_eq. exact Hx.
+  - cbn [cell_of cell_size]. lia.
+  - intros rho r rho' HR. inversion HR; subst. eauto.
+Qed.
